@@ -310,6 +310,13 @@ func (l *Listener) Close() error {
 
 func (l *Listener) Addr() net.Addr { return l.addr }
 
+// ListenerAt returns the listener bound to addr (ip:port), or nil.
+func (n *Net) ListenerAt(addr string) *Listener {
+	n.mu.Lock()
+	defer n.mu.Unlock()
+	return n.listeners[addr]
+}
+
 // InjectTempErrors makes the next k Accept calls fail with a temporary error.
 func (l *Listener) InjectTempErrors(k int) {
 	l.n.mu.Lock()
